@@ -565,10 +565,14 @@ func (g *gen) body(f int, in *sFile, child *sFile, nparams int, depth int, n int
 				ns = append(ns, g.text(f))
 				continue
 			}
-			pf := g.partialFormat(f)
 			kind := byte('S')
 			if g.c.Rng.Intn(3) == 0 {
 				kind = 'V'
+			}
+			pf := g.partialFormat(f)
+			if kind == 'S' && g.c.Rng.Intn(3) == 0 {
+				// {{ render }} takes the fast path whatever the formats: any pair
+				pf = g.c.Rng.Intn(6)
 			}
 			saved := g.allowRecFile
 			g.allowRecFile = kind == 'S' && (pf == f || (pf == fMarkdown && f == fHTML))
